@@ -302,6 +302,8 @@ impl<'a> Gen<'a> {
                         if let Some(n) = self.scan_groups {
                             let i = if self.rng.chance(1, 30) { n + 1 } else { self.rng.below(n) };
                             (json!({"k": "rcap", "i": i}), true, Quant::One)
+                        } else if self.cfg.noise_pct >= 10 && self.rng.chance(1, 6) {
+                            (json!({"k": "rcap", "i": self.rng.below(3)}), true, Quant::One)
                         } else {
                             (self.str_lit(), true, Quant::One)
                         }
